@@ -7,7 +7,7 @@ namespace Driver
      "steps":[{"dt":n,"l":[..],"pw":[..],"creds":[[l,pw,user],…]}]}  → list of users.
     `creds` is the back-end's table in force at that step (first match wins; no match = rejected). -/
 def handleAuth (j : Json) : Json :=
-  let cfg : AuthCache.Cfg := ⟨getNat j "succ", getNat j "fail"⟩
+  let cfg : AuthCache.Cfg := ⟨getNat j "succ", getNat j "fail", getNat j "fail_salt"⟩
   let lc := getBool j "lc"; let uc := getBool j "uc"; let strip := getBool j "strip"
   let steps := getArr j "steps"
   let go := fun (acc : AuthCache.State × Nat × List Json) (s : Json) =>
